@@ -24,6 +24,7 @@ use duke::visitor::method::code::{CodeInterests, CodeVisitor, StackMapData};
 use duke::visitor::method::{MethodInterests, MethodVisitor};
 use duke::visitor::MultiClassVisitor;
 use java_string::JavaString;
+use crate::values::{ck, canon_annotations, canon_element, canon_inner_classes, canon_enclosing_method, canon_class, canon_classes, canon_packages, canon_parameters};
 
 pub type Mask = Vec<&'static str>;
 
@@ -116,7 +117,8 @@ pub fn cksum(bytes: &[u8]) -> u64 { bytes.iter().fold(7u64, |a, &b| (a * 31 + b 
 #[derive(Clone, Debug, PartialEq)]
 pub enum Ev {
 	/// a visit caused by one attribute; raw = the bytes handed over verbatim (unknown attributes, SourceDebugExtension)
-	Attr { name: String, raw: Option<Vec<u8>>, content: String },
+	/// val = the parsed value as numbers (values.rs), for the attributes whose value the Coq model parses too; empty otherwise
+	Attr { name: String, raw: Option<Vec<u8>>, content: String, val: Vec<u64> },
 	Flags(bool, bool),
 	/// a table collected over the attribute loop and visited after it; one item per entry with the
 	/// attribute kind it comes from (0 LineNumberTable, 1 LocalVariableTable, 2 LocalVariableTypeTable);
@@ -129,11 +131,12 @@ pub enum Ev {
 	Method { hdr: String, es: Option<Vec<Ev>> },
 }
 
-fn attr(name: &str, content: String) -> Ev { Ev::Attr { name: name.to_owned(), raw: None, content } }
+fn attr(name: &str, content: String) -> Ev { Ev::Attr { name: name.to_owned(), raw: None, content, val: vec![] } }
+fn attr_v(name: &str, content: String, val: Vec<u64>) -> Ev { Ev::Attr { name: name.to_owned(), raw: None, content, val } }
 fn unknown(a: Attribute) -> Ev {
 	// the name as the bytes of its modified-UTF-8 form (one char per byte): that is what the pool holds and the model compares
 	let name: String = a.name.to_modified_utf8().iter().map(|&b| b as char).collect();
-	Ev::Attr { name, raw: Some(a.bytes.clone()), content: String::new() }
+	Ev::Attr { name, raw: Some(a.bytes.clone()), content: String::new(), val: vec![] }
 }
 fn vis(visible: bool, a: &'static str, b: &'static str) -> &'static str { if visible { a } else { b } }
 
@@ -178,19 +181,19 @@ impl ClassVisitor for RecClass {
 
 	fn interests(&self) -> ClassInterests { class_interests(&self.desc.class) }
 	fn visit_deprecated_and_synthetic_attribute(&mut self, deprecated: bool, synthetic: bool) -> Result<()> { self.evs.push(Ev::Flags(deprecated, synthetic)); Ok(()) }
-	fn visit_inner_classes(&mut self, x: Vec<InnerClass>) -> Result<()> { self.evs.push(attr("InnerClasses", format!("{x:?}"))); Ok(()) }
-	fn visit_enclosing_method(&mut self, x: EnclosingMethod) -> Result<()> { self.evs.push(attr("EnclosingMethod", format!("{x:?}"))); Ok(()) }
-	fn visit_signature(&mut self, x: ClassSignature) -> Result<()> { self.evs.push(attr("Signature", format!("{x:?}"))); Ok(()) }
-	fn visit_source_file(&mut self, x: JavaString) -> Result<()> { self.evs.push(attr("SourceFile", format!("{x:?}"))); Ok(()) }
+	fn visit_inner_classes(&mut self, x: Vec<InnerClass>) -> Result<()> { self.evs.push(attr_v("InnerClasses", format!("{x:?}"), canon_inner_classes(&x))); Ok(()) }
+	fn visit_enclosing_method(&mut self, x: EnclosingMethod) -> Result<()> { self.evs.push(attr_v("EnclosingMethod", format!("{x:?}"), canon_enclosing_method(&x))); Ok(()) }
+	fn visit_signature(&mut self, x: ClassSignature) -> Result<()> { self.evs.push(attr_v("Signature", format!("{x:?}"), vec![ck(x.as_inner())])); Ok(()) }
+	fn visit_source_file(&mut self, x: JavaString) -> Result<()> { self.evs.push(attr_v("SourceFile", format!("{x:?}"), vec![ck(&x)])); Ok(()) }
 	fn visit_source_debug_extension(&mut self, x: JavaString) -> Result<()> {
 		// the reader hands over the attribute's bytes decoded from modified UTF-8; re-encoding gives the bytes back
 		let raw = Some(x.to_modified_utf8().into_owned());
-		self.evs.push(Ev::Attr { name: "SourceDebugExtension".into(), raw, content: format!("{x:?}") });
+		self.evs.push(Ev::Attr { name: "SourceDebugExtension".into(), raw, content: format!("{x:?}"), val: vec![] });
 		Ok(())
 	}
 	fn visit_annotations(self, visible: bool) -> Result<(Self::AnnotationsResidual, Self::AnnotationsVisitor)> { Ok(((self, visible), Vec::new())) }
 	fn finish_annotations((mut this, visible): Self::AnnotationsResidual, v: Self::AnnotationsVisitor) -> Result<Self> {
-		this.evs.push(attr(vis(visible, "RuntimeVisibleAnnotations", "RuntimeInvisibleAnnotations"), format!("{v:?}")));
+		this.evs.push(attr_v(vis(visible, "RuntimeVisibleAnnotations", "RuntimeInvisibleAnnotations"), format!("{v:?}"), canon_annotations(&v)));
 		Ok(this)
 	}
 	fn visit_type_annotations(self, visible: bool) -> Result<(Self::TypeAnnotationsResidual, Self::TypeAnnotationsVisitor)> { Ok(((self, visible), Vec::new())) }
@@ -199,11 +202,11 @@ impl ClassVisitor for RecClass {
 		Ok(this)
 	}
 	fn visit_module(&mut self, x: Module) -> Result<()> { self.evs.push(attr("Module", format!("{x:?}"))); Ok(()) }
-	fn visit_module_packages(&mut self, x: Vec<PackageName>) -> Result<()> { self.evs.push(attr("ModulePackages", format!("{x:?}"))); Ok(()) }
-	fn visit_module_main_class(&mut self, x: ClassName) -> Result<()> { self.evs.push(attr("ModuleMainClass", format!("{x:?}"))); Ok(()) }
-	fn visit_nest_host_class(&mut self, x: ClassName) -> Result<()> { self.evs.push(attr("NestHost", format!("{x:?}"))); Ok(()) }
-	fn visit_nest_members(&mut self, x: Vec<ClassName>) -> Result<()> { self.evs.push(attr("NestMembers", format!("{x:?}"))); Ok(()) }
-	fn visit_permitted_subclasses(&mut self, x: Vec<ClassName>) -> Result<()> { self.evs.push(attr("PermittedSubclasses", format!("{x:?}"))); Ok(()) }
+	fn visit_module_packages(&mut self, x: Vec<PackageName>) -> Result<()> { self.evs.push(attr_v("ModulePackages", format!("{x:?}"), canon_packages(&x))); Ok(()) }
+	fn visit_module_main_class(&mut self, x: ClassName) -> Result<()> { self.evs.push(attr_v("ModuleMainClass", format!("{x:?}"), canon_class(&x))); Ok(()) }
+	fn visit_nest_host_class(&mut self, x: ClassName) -> Result<()> { self.evs.push(attr_v("NestHost", format!("{x:?}"), canon_class(&x))); Ok(()) }
+	fn visit_nest_members(&mut self, x: Vec<ClassName>) -> Result<()> { self.evs.push(attr_v("NestMembers", format!("{x:?}"), canon_classes(&x))); Ok(()) }
+	fn visit_permitted_subclasses(&mut self, x: Vec<ClassName>) -> Result<()> { self.evs.push(attr_v("PermittedSubclasses", format!("{x:?}"), canon_classes(&x))); Ok(()) }
 
 	fn visit_record_component(mut self, name: RecordName, descriptor: FieldDescriptor)
 			-> Result<ControlFlow<Self, (Self::RecordComponentResidual, Self::RecordComponentVisitor)>> {
@@ -257,9 +260,9 @@ impl ClassVisitor for RecClass {
 pub fn events_of_field(f: &Field) -> Vec<Ev> {
 	let mut es = vec![];
 	if let Some(x) = &f.constant_value { es.push(attr("ConstantValue", format!("{x:?}"))); }
-	if let Some(x) = &f.signature { es.push(attr("Signature", format!("{x:?}"))); }
-	if !f.runtime_visible_annotations.is_empty() { es.push(attr("RuntimeVisibleAnnotations", format!("{:?}", f.runtime_visible_annotations))); }
-	if !f.runtime_invisible_annotations.is_empty() { es.push(attr("RuntimeInvisibleAnnotations", format!("{:?}", f.runtime_invisible_annotations))); }
+	if let Some(x) = &f.signature { es.push(attr_v("Signature", format!("{x:?}"), vec![ck(x.as_inner())])); }
+	if !f.runtime_visible_annotations.is_empty() { es.push(attr_v("RuntimeVisibleAnnotations", format!("{:?}", f.runtime_visible_annotations), canon_annotations(&f.runtime_visible_annotations))); }
+	if !f.runtime_invisible_annotations.is_empty() { es.push(attr_v("RuntimeInvisibleAnnotations", format!("{:?}", f.runtime_invisible_annotations), canon_annotations(&f.runtime_invisible_annotations))); }
 	if !f.runtime_visible_type_annotations.is_empty() { es.push(attr("RuntimeVisibleTypeAnnotations", format!("{:?}", f.runtime_visible_type_annotations))); }
 	if !f.runtime_invisible_type_annotations.is_empty() { es.push(attr("RuntimeInvisibleTypeAnnotations", format!("{:?}", f.runtime_invisible_type_annotations))); }
 	for a in &f.attributes { es.push(unknown(a.clone())); }
@@ -284,7 +287,7 @@ pub fn events_of_rc(rc: &RecordComponent) -> Vec<Ev> {
 		let af = dbg_fields(&a);
 		let name = af.iter().find(|(n, _)| n == "name").map(|(_, v)| v.trim_matches('"').to_owned()).unwrap_or_default();
 		let bytes = af.iter().find(|(n, _)| n == "bytes").map(|(_, v)| dbg_list(v).iter().filter_map(|x| x.trim().parse::<u8>().ok()).collect::<Vec<u8>>()).unwrap_or_default();
-		es.push(Ev::Attr { name, raw: Some(bytes), content: String::new() });
+		es.push(Ev::Attr { name, raw: Some(bytes), content: String::new(), val: vec![] });
 	}
 	canon_sort(&mut es);
 	es
@@ -351,11 +354,11 @@ impl MethodVisitor for RecMethod {
 
 	fn interests(&self) -> MethodInterests { method_interests(&self.mask) }
 	fn visit_deprecated_and_synthetic_attribute(&mut self, deprecated: bool, synthetic: bool) -> Result<()> { self.evs.push(Ev::Flags(deprecated, synthetic)); Ok(()) }
-	fn visit_exceptions(&mut self, x: Vec<ClassName>) -> Result<()> { self.evs.push(attr("Exceptions", format!("{x:?}"))); Ok(()) }
-	fn visit_signature(&mut self, x: MethodSignature) -> Result<()> { self.evs.push(attr("Signature", format!("{x:?}"))); Ok(()) }
+	fn visit_exceptions(&mut self, x: Vec<ClassName>) -> Result<()> { self.evs.push(attr_v("Exceptions", format!("{x:?}"), canon_classes(&x))); Ok(()) }
+	fn visit_signature(&mut self, x: MethodSignature) -> Result<()> { self.evs.push(attr_v("Signature", format!("{x:?}"), vec![ck(x.as_inner())])); Ok(()) }
 	fn visit_annotations(self, visible: bool) -> Result<(Self::AnnotationsResidual, Self::AnnotationsVisitor)> { Ok(((self, visible), Vec::new())) }
 	fn finish_annotations((mut this, visible): Self::AnnotationsResidual, v: Self::AnnotationsVisitor) -> Result<Self> {
-		this.evs.push(attr(vis(visible, "RuntimeVisibleAnnotations", "RuntimeInvisibleAnnotations"), format!("{v:?}")));
+		this.evs.push(attr_v(vis(visible, "RuntimeVisibleAnnotations", "RuntimeInvisibleAnnotations"), format!("{v:?}"), canon_annotations(&v)));
 		Ok(this)
 	}
 	fn visit_type_annotations(self, visible: bool) -> Result<(Self::TypeAnnotationsResidual, Self::TypeAnnotationsVisitor)> { Ok(((self, visible), Vec::new())) }
@@ -365,10 +368,12 @@ impl MethodVisitor for RecMethod {
 	}
 	fn visit_annotation_default(self) -> Result<(Self::AnnotationDefaultResidual, Self::AnnotationDefaultVisitor)> { Ok((self, Vec::new())) }
 	fn finish_annotation_default(mut this: Self::AnnotationDefaultResidual, v: Self::AnnotationDefaultVisitor) -> Result<Self> {
-		this.evs.push(attr("AnnotationDefault", format!("{v:?}")));
+		// the value: one element_value (a visitor that was handed none, or several, has no value to report)
+		let val = if v.len() == 1 { canon_element(&v[0]) } else { vec![] };
+		this.evs.push(attr_v("AnnotationDefault", format!("{v:?}"), val));
 		Ok(this)
 	}
-	fn visit_parameters(&mut self, x: Vec<MethodParameter>) -> Result<()> { self.evs.push(attr("MethodParameters", format!("{x:?}"))); Ok(()) }
+	fn visit_parameters(&mut self, x: Vec<MethodParameter>) -> Result<()> { self.evs.push(attr_v("MethodParameters", format!("{x:?}"), canon_parameters(&x))); Ok(()) }
 	fn visit_annotable_parameter_count(&mut self) {}
 	fn visit_parameter_annotation(&mut self) {}
 	fn visit_unknown_attribute(&mut self, a: Self::UnknownAttribute) -> Result<()> { self.evs.push(unknown(a)); Ok(()) }
@@ -441,7 +446,7 @@ impl RecCode {
 		};
 		let (mut lines, mut lvs) = (self.raw_lines.iter(), self.raw_lvs.iter());
 		let es = self.es.into_iter().map(|e| match e {
-			Ev::Attr { name, raw, content } => Ev::Attr { name, raw, content: fix(&content) },
+			Ev::Attr { name, raw, content, val } => Ev::Attr { name, raw, content: fix(&content), val },
 			Ev::Deferred { slot, items, optional, .. } => {
 				let rows: Vec<RowN> = if slot == "line_number_table" {
 					lines.next().map(|x| x.iter().map(|(l, n)| RowN::Line(at(l), *n)).collect()).unwrap_or_default()
